@@ -66,6 +66,7 @@ func (m *roster) filteredForClass(className string) (tasks Tasks) {
 }
 
 func (m *roster) filtered(filter Filter) (tasks Tasks) {
+	defer verifhook.Point("task.roster.filtered") // reached once the read lock is released again
 	m.mu.RLock()
 	defer m.mu.RUnlock()
 
